@@ -103,7 +103,10 @@ def shape_stage(ctx, cov, cases):
         "sessions_compared_node_by_node": compared, "per_configuration": per_cfg, "differing_runs": len(bad),
         "path_markers (counted by the driver on the model's trees)": markers,
         "model_self_checks": "per session: tree_checkb of the result (INV!), erasure of the result == CursorSplice.t_session on the erased tree (ERASE!), "
-                             "contents and outputs == the specification cursor's (SPEC!); a marker line would differ from redb's output",
+                             "contents and outputs == the specification cursor's (SPEC!); a marker line would differ from redb's output. "
+                             "All three are now theorems about the model (c18_cursor_refines_tree, c18_shape_session_erases, c18_cursor_refines_shape); "
+                             "the markers remain as run-time checks of the extracted code and of the parsed start tree (INV! can only fire when the "
+                             "real tree the model is started from is itself not well-formed, or extraction/glue is wrong)",
         "seconds_model": round(time.time() - t0, 1),
     }
     if not bad:
@@ -311,7 +314,8 @@ def run(ctx):
                            "harness/src/bin/c18.rs + c04_util.rs (generator with its own shadow key set, canonical printer)",
                            "C15 for Key::compare = value order of the oracle's key type"]
     return ctx.finish("proof", cov,
-                      assumptions=["the gap logic is proved at the list level; the tree-level splice (splice_insert_run, rebuild_branch_level, build_branch_nodes, "
-                                   "replace_branch_child, open_insert_run's position) is modelled in coq/Btree/CursorSplice.v; that the crate follows the model is "
+                      assumptions=["proved about the MODEL (coq/Btree/Cursor.v gap logic + CursorSplice.v tree-level splice + Mutator.delete, composed into whole "
+                                   "sessions on the tree: c18_cursor_refines_tree for every TreeInv tree, bound, script and flush decision; transferred to the decorated "
+                                   "shape model by the erasure theorem c18_shape_session_erases); that the crate follows the model is "
                                    "validated per run: node-by-node shape comparison after every mutable cursor session + outputs and full table scans"],
                       s2_ok=s2_ok, s2_detail=s2_detail)
